@@ -17,6 +17,7 @@ RULE = (
     "under float32. distinct = distinct case JSON."
     ' Also: fixed cases in which the collection is written, read and re-written by separate interpreter processes.'
     ' A third of the CLI cases name every chain file thetas.h5 in a directory of its own; in a fifth of the cases every fourth write request of one save fails in turn with ENOSPC.'
+    ' A quarter of the CLI cases name one chain file twice, another quarter pass a saved concatenation of two chains as the first file.'
 )
 ASSUMPTIONS = [
     "NaN parameters are not generated (NaN payload equality through HDF5 is not part of the claim); magnitudes <= 1e100 so predictions stay finite",
@@ -302,11 +303,28 @@ def check_case(case):
                 out = tmp.fresh("evaluation.h5", odd=(case["order_seed"] // 7) if case["order_seed"] % 2 else None)
                 paths += [sfile, out]
                 screen.save_h5(sfile)
-                run_cli("evaluate_model", ["--screen", sfile, "--thetas"] + [files[i] for i in order] + ["--output", out], verbose=case["order_seed"] % 4 == 1)
+                if case["order_seed"] % 4 == 2:
+                    # the same chain file named twice on the command line: two chains with the same samples
+                    order = order + [order[0]]
+                    flat = flat + list(holders[order[0]].thetas)
+                cli_files = [files[i] for i in order]
+                exp_chain = [pos for pos, i in enumerate(order) for _ in holders[i].thetas]
+                if case["order_seed"] % 4 == 3 and len(order) >= 2:
+                    # the first file on the command line is itself a saved concatenation of two chains: to the command it is one
+                    # file, hence one chain
+                    mfile = tmp.fresh("merged.h5")
+                    paths.append(mfile)
+                    ThetaHolder.concat([ThetaHolder.load_h5(files[order[0]]), ThetaHolder.load_h5(files[order[1]])]).save_h5(mfile)
+                    cli_files = [mfile] + cli_files[2:]
+                    n01 = len(holders[order[0]].thetas) + len(holders[order[1]].thetas)
+                    # (samples of one collection share one single-effect table: the reference columns are those of the merged
+                    # collection as it loads, not of the two chains it was made from)
+                    flat = list(ThetaHolder.load_h5(mfile).thetas) + flat[n01:]
+                    exp_chain = [0] * n01 + [pos + 1 for pos, i in enumerate(order[2:]) for _ in holders[i].thetas]
+                run_cli("evaluate_model", ["--screen", sfile, "--thetas"] + cli_files + ["--output", out], verbose=case["order_seed"] % 4 == 1)
                 me = ModelEvaluation.load_h5(out)
                 preds = np.asarray(me.predictions, dtype=float)
                 require(preds.shape == (screen.size, len(flat)), "evaluate.shape", lambda: "predictions shape %r, expected %r" % (preds.shape, (screen.size, len(flat))))
-                exp_chain = [pos for pos, i in enumerate(order) for _ in holders[i].thetas]
                 require([int(x) for x in me.chain_ids] == exp_chain, "evaluate.chain_ids", lambda: "chain ids %r, expected %r" % ([int(x) for x in me.chain_ids], exp_chain))
                 for j, t in enumerate(flat):
                     col = np.asarray(t.predict_viability(screen), dtype=float)
